@@ -466,6 +466,9 @@ func ruleC01(c *Ctx) {
 	}
 	// the EncryptedAssertion handler promotes plaintext to a direct child of the element it processes: the same
 	// direct-child requirement applies to it (shared with C07-R3)
+	c.rule("C01-R9", "what decryption puts into a (possibly verified) tree is the plaintext of the very ciphertext it replaces: every element decryptAssertions adds is Root(parseResponse(DecryptBytes(EncryptedAssertion decoded from the handler's element))) (shared with C07-R1)")
+	c.count("C01-R9/tree-additions", plaintextProvenance(c, "C01-R9"))
+	c.floor("C01-R9/tree-additions", 1)
 	encryptedDirectChild(c, "C01-R4")
 	decodedImmutable(c, "C01-R8")
 	screenRule(c, "C01-R5")
